@@ -38,7 +38,9 @@ CallBodies == { Bin("add", Call(1, Par), Num(1)),
                 If(Bin("lt", Rr, Num(2)), Par, Call(1, Par)),
                 Bin("sub", Par, Call(1, Call(1, Par))),                           \* a call nested in an argument of the same form
                 Bin("add", Call(1, Par), Call(2, Par)) }                          \* two different callees (the second may not exist)
-RecursiveBodies == { If(Bin("lt", Par, Num(1)), Num(1), Bin("add", Call(1, Bin("sub", Par, Num(1))), Par)) }   \* a(n) = if(n<=0, 1, b(n-1) + n)
+RecursiveBodies == { If(Bin("lt", Par, Num(1)), Num(1), Bin("add", Call(1, Bin("sub", Par, Num(1))), Par)),     \* a(n) = if(n<=0, 1, b(n-1) + n)
+                     \* two nested calls at every level, the parameter read after BOTH returned: a(n) = if(n<=0, 0, b(n-1) + b(n-1) + n*r)
+                     If(Bin("lt", Par, Num(1)), Num(0), Bin("add", Bin("add", Call(1, Bin("sub", Par, Num(1))), Call(1, Bin("sub", Par, Num(1)))), Bin("mul", Par, Rr))) }
 
 \* call target of form f for relative index g; 0 = does not exist
 Target(f, g) == IF Cyclic THEN ((f + g - 1) % NForms) + 1 ELSE IF f + g <= NForms THEN f + g ELSE 0
@@ -49,7 +51,7 @@ WellFormed(e, f) == CASE e.op \in {"par", "r", "num"} -> TRUE
                       [] e.op = "if" -> WellFormed(e.c, f) /\ WellFormed(e.x, f) /\ WellFormed(e.y, f)
 Programs == IF Cyclic
             THEN \* a(r,n) = if(n < 1, 1, b(r, n-1) + n) ;  b(r,n) = a(r,n) + 0     (the manual allows forms to call each other)
-                 {[f \in Forms |-> IF f = 1 THEN CHOOSE b \in RecursiveBodies : TRUE ELSE Bin("add", Call(1, Par), Num(0))]}
+                 {[f \in Forms |-> IF f = 1 THEN b ELSE Bin("add", Call(1, Par), Num(0))] : b \in RecursiveBodies}
             ELSE {p \in [Forms -> LeafBodies \cup CallBodies] :
                     /\ \A f \in Forms : WellFormed(p[f], f)
                     /\ p[NForms] \in LeafBodies}
